@@ -21,6 +21,10 @@ P = {
  "C11": "Varint and framing round trip for every length, sealed ciphertext valid and decrypts to exactly the message through every wrapper path, exact validity condition, changed W invalid (absolute), changed U/V/label only at a hash relation, invalid ciphertexts decrypt to nothing through all three paths, wrong key needs a keystream collision (known finding for the empty message).",
  "C12": "Decryption shares are f(i)*U; exact share-verification condition; own key share verifies for the ciphertext's scheme, another participant's only if share values coincide; >= t shares decrypt directly and through a combined key; fewer than two give nothing; below threshold undetermined.",
  "C13": "Seal specification, round trip for all three schemes through the wrappers, soundness of opening (U equals the hash of the recovered alpha and message), gating by scheme / identity, altered payload opens only at a collision, altering only W gives the original or nothing.",
+ "C15": "Generic theorem: every well-formed value of every serde_bare layout decodes from its encoding in front of arbitrary trailing bytes (hence round trip), plus per-type instances for all byte conversions (keys, PoP, scalars big/little endian, the curve-tagged key wrapper, signatures, commitments, proofs of knowledge with every u64 timestamp, all share containers, both ciphertext types with any payload length, ElGamal ciphertexts and proofs); fixed-size layouts have a length depending only on type and group. JSON forms are covered by the search harness only (stated).",
+ "C16": "Generic theorem: every proper prefix of a valid encoding is rejected, for every layout; exact-length types reject every other length; zero scalars are not importable and nothing imported is zero; combining or verifying share containers with an invalid payload is an error. That returned points are subgroup points holds by construction of the dlog model and is tied to the code by feeding off-subgroup / off-curve / bad-flag encodings at every point position of every type to model and implementation.",
+ "C17": "Totality theorems (neither panic nor non-termination, debug and release semantics) for every consuming entry point that contains a panicking construct: zero test (exhaustive over the 256 OR-values), length-prefix parsing and slicing, share combination (Lagrange denominator), Signature::from_shares on the empty list, aggregate verification, proof-of-knowledge and timestamp verification for every u64, all signcryption decrypt paths with payloads of any size, time-lock decryption, the curve-tagged key wrapper on empty slices; under the oracle side conditions the code itself asserts. Panics inside dependencies: search harness only.",
+ "C18": "Pinning theorems for every salt, tag, transcript label and order, framing rule, hash input layout and serde layout of the model, plus seal = documented construction for signcryption and time lock; tied to the code by the byte-exact correspondence run over all four constructions and all layouts, to the documented constructions by an independent reference implementation exchanging tuples in both directions, and to the pinned release by a golden corpus.",
  "C14": "Encryption/decryption correctness, additive homomorphism for any list, decryption keys from shares, exact proof verification condition, completeness, verify-and-decrypt under own key only, transcript binds every public component injectively, modified tuples need a Fiat-Shamir collision.",
 }
 def main():
